@@ -1336,8 +1336,10 @@ def check_reuse_pair(case: dict, cnt: dict) -> list:
     p = BDParser()
     signal.alarm(CASE_TIMEOUT)
     try:
+        d1 = snap1 = None
         try:
-            p.parse(first, list(ext))
+            d1 = p.parse(first, list(ext))
+            snap1 = copy.deepcopy(d1)   # what the caller was handed for the first program
         except Exception:  # noqa
             pass
         try:
@@ -1354,10 +1356,16 @@ def check_reuse_pair(case: dict, cnt: dict) -> list:
     _count(cnt, "programs")
     _count(cnt, "executions", 3)
     _count(cnt, "judged")
+    out = []
     if again != fresh:
-        return [("C19.parser-reuse", f"{fresh[0]}-vs-{again[0]}",
-                 f"after parsing {first!r} the same parser object answers {fmt(again)}; a fresh parser answers {fmt(fresh)}")]
-    return []
+        out.append(("C19.parser-reuse", f"{fresh[0]}-vs-{again[0]}",
+                    f"after parsing {first!r} the same parser object answers {fmt(again)}; a fresh parser answers {fmt(fresh)}"))
+    if snap1 is not None and d1 != snap1:
+        # the configuration handed out for the first program belongs to the caller: parsing another program with the same
+        # parser object must not rewrite it (the command list built from it later would be the second program's)
+        out.append(("C19.parser-reuse", "earlier-result-changed",
+                    f"the configuration returned for {first!r} was {fmt(snap1)}; after the same parser parsed {second!r} that object reads {fmt(d1)}"))
+    return out
 
 
 def reuse_cases() -> list:
